@@ -208,6 +208,41 @@ Proof.
 Qed.
 Print Assumptions C16_old_sshsig_cert_type_matches_use_refuted.
 
+(* --- time values (misc.parse_time) ------------------------------------------------------------- *)
+
+(* A limit written with a trailing Z denotes that UTC instant whatever the process time zone is;
+   a zone-less limit is local time: the UTC reading shifted by the zone offset (all digit strings,
+   all offsets). *)
+Theorem C16_time_Z_is_utc : forall ds off, parse_time_abs ds true off = parse_time_abs ds true 0.
+Proof. exact parse_time_abs_Z. Qed.
+Print Assumptions C16_time_Z_is_utc.
+
+Theorem C16_time_zoneless_is_local : forall ds off,
+  parse_time_abs ds false off =
+  match parse_time_abs ds true 0 with Some t => Some (t + off) | None => None end.
+Proof. exact parse_time_abs_local. Qed.
+Print Assumptions C16_time_zoneless_is_local.
+
+(* Only zone-less absolute times depend on the process time zone. *)
+Theorem C16_time_zone_independent : forall s off off' now,
+  match s with TAbs _ false => False | _ => True end -> parse_time s off now = parse_time s off' now.
+Proof. exact parse_time_zone_independent. Qed.
+Print Assumptions C16_time_zone_independent.
+
+(* A validity window whose limits are Z-times is open exactly between those UTC instants, in
+   every zone (certificate generation with string limits, allowed-signers valid-after/-before). *)
+Theorem C16_window_Z_limits : forall dsa dsb off pnow now ta tb,
+  parse_time_abs dsa true 0 = Some ta -> parse_time_abs dsb true 0 = Some tb ->
+  (window_decision (Some (TAbs dsa true)) (Some (TAbs dsb true)) off pnow now = 0 <-> ta <= now < tb).
+Proof. exact window_decision_Z. Qed.
+Print Assumptions C16_window_Z_limits.
+
+Example C16_time_example :
+  parse_time_abs [50;48;50;51;49;49;49;52;50;50;49;51;50;48] true 43200 = Some 1700000000 /\
+  parse_time_abs [50;48;50;51;49;49;49;52;50;50;49;51;50;48] false 43200 = Some 1700043200 /\
+  parse_time_abs [50;48;50;51;48;50;51;48] true 0 = None.
+Proof. vm_compute. repeat split; reflexivity. Qed.
+
 (* --- non-vacuity ------------------------------------------------------------------------------ *)
 
 Example C16_string_example : get_string [0;0;0;2;104;105;7] = Some ([104;105], [7]).
